@@ -114,3 +114,10 @@ package composer
 //@   ensures accepts<: strings.TrimSpace(c) != "*" && !strings.HasPrefix(strings.TrimSpace(c), "^") && !strings.HasPrefix(strings.TrimSpace(c), "~") && !strings.Contains(strings.TrimSpace(c), "*") && !strings.Contains(strings.TrimSpace(c), "x") && strings.HasPrefix(strings.TrimSpace(c), "<") && !strings.HasPrefix(strings.TrimSpace(c), "<=") && !strings.HasPrefix(strings.TrimSpace(c), "<>") && !strings.Contains(strings.TrimSpace(strings.TrimSpace(c)[1:]), "@") && theEcosystem().NewVersion(strings.TrimSpace(strings.TrimSpace(c)[1:])).1 == nil ==> result1 == nil   [C02]
 //@   ensures op=: strings.TrimSpace(c) != "*" && !strings.HasPrefix(strings.TrimSpace(c), "^") && !strings.HasPrefix(strings.TrimSpace(c), "~") && !strings.Contains(strings.TrimSpace(c), "*") && !strings.Contains(strings.TrimSpace(c), "x") && strings.HasPrefix(strings.TrimSpace(c), "=") && !strings.Contains(strings.TrimSpace(strings.TrimSpace(c)[1:]), "@") && result1 == nil ==> len(result0) == 1 && result0[0] != nil && result0[0].operator == "=" && result0[0].version == theEcosystem().NewVersion(strings.TrimSpace(strings.TrimSpace(c)[1:])).0   [C02]
 //@   ensures accepts=: strings.TrimSpace(c) != "*" && !strings.HasPrefix(strings.TrimSpace(c), "^") && !strings.HasPrefix(strings.TrimSpace(c), "~") && !strings.Contains(strings.TrimSpace(c), "*") && !strings.Contains(strings.TrimSpace(c), "x") && strings.HasPrefix(strings.TrimSpace(c), "=") && !strings.Contains(strings.TrimSpace(strings.TrimSpace(c)[1:]), "@") && theEcosystem().NewVersion(strings.TrimSpace(strings.TrimSpace(c)[1:])).1 == nil ==> result1 == nil   [C02]
+
+// ---- C20 for comparator constraints (the caret/tilde/wildcard operators are covered by the bounded obligations and a recorded finding)
+//@ spec cmpOp(c *constraint) bool = c.version != nil && (c.operator == "=" || c.operator == "!=" || c.operator == "<" || c.operator == "<=" || c.operator == ">" || c.operator == ">=")
+//@ lemma c20-equal [C20]: forall c *constraint, v1, v2 *Version :: trigger(c.matches(v1), c.matches(v2)) && c != nil && v1 != nil && v2 != nil && cmpOp(c) && v1.Compare(v2) == 0 ==> c.matches(v1) == c.matches(v2)
+//@ lemma c20-convex [C20]: forall c *constraint, a, b, d *Version :: trigger(c.matches(a), c.matches(d), a.Compare(b), b.Compare(d)) && c != nil && a != nil && b != nil && d != nil && cmpOp(c) && c.operator != "!=" && a.Compare(b) <= 0 && b.Compare(d) <= 0 && c.matches(a) && c.matches(d) ==> c.matches(b)
+// lifting to OR-of-AND ranges made of comparator constraints: versions that compare equal are treated alike
+//@ lemma c20-range-equal [C20] uses c20-equal: forall pr *VersionRange, v1, v2 *Version :: pr != nil && v1 != nil && v2 != nil && wfRange(pr) && (forall g int :: 0 <= g && g < len(pr.constraintGroups) ==> (forall i int :: 0 <= i && i < len(pr.constraintGroups[g]) ==> cmpOp(pr.constraintGroups[g][i]))) && v1.Compare(v2) == 0 ==> ((exists g int :: 0 <= g && g < len(pr.constraintGroups) && (forall i int :: 0 <= i && i < len(pr.constraintGroups[g]) ==> pr.constraintGroups[g][i].matches(v1))) == (exists g int :: 0 <= g && g < len(pr.constraintGroups) && (forall i int :: 0 <= i && i < len(pr.constraintGroups[g]) ==> pr.constraintGroups[g][i].matches(v2))))
